@@ -137,6 +137,35 @@ Proof.
   rewrite read_slices_exact; [reflexivity|exact Ws|apply length_enc_slices_ge].
 Qed.
 
+(* C06 at file level: on every strict prefix of a well-formed file the session ends with a hard
+   error - never OK, never end-of-table - and what was delivered before it is the table metadata of
+   the full file (or nothing) and the first slices of the full file, unchanged *)
+Theorem read_file_truncated meta sls names n : wf_file meta sls names ->
+  0 <= n < zlen (enc_file meta sls names) ->
+  let '(t, st, _) := read_table swp cap0 None (ztake n (enc_file meta sls names)) in
+  hard st /\
+  match t with
+  | None => True
+  | Some T => t_meta T = t_meta (read_back meta sls names) /\ exists k, t_slices T = map owned_ts (firstn k sls)
+  end.
+Proof.
+  intros [Wm Wd Wf Wn Ws] Hn. unfold read_table, enc_file in *. rewrite !zlen_app in Hn.
+  destruct (fold_gives_names_ok (tcols meta) names) as (Hnm & Hc); [destruct Wm as (_ & _ & Wc & _); exact Wc|exact Wd|exact Wf|].
+  destruct rspec_fh as [E0 T0].
+  destruct (rspec_tm swp meta names Wm Hnm Wn Hc) as [E1 T1].
+  destruct (Z_lt_le_dec n (zlen enc_header)) as [L0|L0].
+  - rewrite ztake_app_le by lia. destruct (T0 n) as (e & Ee & He); [lia|]. rewrite Ee. split; [exact He|exact I].
+  - rewrite ztake_app_ge by lia. rewrite E0.
+    destruct (Z_lt_le_dec (n - zlen enc_header) (zlen (enc_tm swp meta names))) as [L1|L1].
+    + rewrite ztake_app_le by lia. destruct (T1 (n - zlen enc_header)) as (e & Ee & He); [lia|]. rewrite Ee. split; [exact He|exact I].
+    + rewrite ztake_app_ge by lia. rewrite E1. cbn [tcols]. rewrite zlen_map.
+      pose proof (read_slices_truncated sls (zlen (tcols meta))
+                    (ztake (n - zlen enc_header - zlen (enc_tm swp meta names)) (enc_slices sls))
+                    (n - zlen enc_header - zlen (enc_tm swp meta names)) Ws) as H.
+      destruct (read_slices swp cap0 _ (zlen (tcols meta)) None (ztake (n - zlen enc_header - zlen (enc_tm swp meta names)) (enc_slices sls))) as [[l st] s'].
+      destruct H as (Hs & k & Hl); [lia|]. split; [exact Hs|]. cbn [t_meta t_slices read_back]. split; [reflexivity|]. now exists k.
+Qed.
+
 (* C08: writing back what was read reproduces the file byte for byte.  The re-expanded column
    metadata folds to the same name list (every column is already in that order). *)
 End FileFacts.
